@@ -59,6 +59,8 @@ def cases(tier, seed):
     yield dict(kind='array', tier=tier)
     yield dict(kind='partial', tier=tier)
     yield dict(kind='nonfinite', tier=tier)
+    for n in ((65537, 150001) if tier == 'quick' else (65535, 65536, 65537, 100001, 131073, 150001, 1048577)):
+        yield dict(kind='big', n=n, tier=tier)
     for sub in DEGENERATE:
         yield dict(kind='degenerate', sub=sub, tier=tier)
 
@@ -171,6 +173,10 @@ def run_case(c):
                     one = dict(c)
                     judge(res, 'sample', what, d, base, lambda: to_mef(d, req, scl, scch), SC, rc, one,
                           'channel(s) %r have no curve' % unc if unc else None)
+                # a request naming a channel the sample does not have (alone or next to covered channels) is refused as well
+                for req in ('CH9', ['CH9'], [NAMES[SC[0]], 'CH9'], ['nope', SC[0]], ('CH1 ',), 'ch1'):
+                    judge(res, 'sample-unknown', 'to_mef(sample, channels=%r, curves for %r, sc_channels=%r)' % (req, SC, scch), d, base,
+                          lambda: to_mef(d, req, scl, scch), SC, [], dict(c), 'the request names a channel the sample does not have')
                 # the request and the curve list spell a channel with different sign conventions (position counted from the last
                 # channel): matched or refused, never handed back unconverted
                 for j in range(4):
@@ -293,6 +299,22 @@ def run_case(c):
                         else:
                             res.ok('nonfinite', True)
             res.sample({'curves': 'log, 1/x, sqrt, 2 log10', 'events': 'zeros and negative values in every channel'})
+        elif c['kind'] == 'big':
+            # many events (a conversion that works through the events in blocks has seams at multiples of its block size)
+            n = c['n']
+            N0 = d.shape[0]
+            idx = np.arange(n) % N0
+            big_s = d[idx]
+            big_a = base[idx].copy()
+            for label, data, named in (('sample', big_s, True), ('array', big_a, False)):
+                bb = np.array(np.asarray(data))
+                for SC, req, rc in (([2, 0], None, [2, 0]), ([0, 1, 2, 3], [3, 1], [3, 1]), ([1], 1, [1])):
+                    scl = [curve(j) for j in SC]
+                    scch = [NAMES[j] for j in SC] if named else list(SC)
+                    rq = req if not named or req is None else ([NAMES[j] for j in req] if isinstance(req, list) else NAMES[req])
+                    judge(res, 'big', 'to_mef(%s with %d events, channels=%r, curves for %r)' % (label, n, rq, SC), data, bb,
+                          lambda: to_mef(data, rq, scl, scch), SC, rc, dict(c), None)
+            res.sample({'events': n})
         elif c['kind'] == 'degenerate':
             # conversion and refusal do not depend on how many events the sample holds
             sub = c['sub']
